@@ -22,7 +22,11 @@ type fanOp struct {
 }
 
 func (o fanOp) String() string {
-	s := string([]byte{o.kind, o.target})
+	k := o.kind
+	if k == 'd' {
+		k = 'f' // a forwarded frame carrying a DECODED message: for the specification a forwarded frame like any other
+	}
+	s := string([]byte{k, o.target})
 	if o.target != 'a' {
 		if o.ch < 0 {
 			s += "F"
@@ -43,6 +47,7 @@ type fanScenario struct {
 	failAt      map[int]int // channel -> index of the transport Write that fails
 	failLen     int         // that many consecutive transport Writes fail (0 means 1)
 	failTimeout bool        // ... with a time-out error
+	failNet     bool        // ... with a non-time-out net.Error
 	pauseAt     map[int]int // channel -> index of the transport Write that waits until every item has been submitted
 	seed        int64
 	pace        int // >= 0: after every write wait until every channel but this one has put the item on the wire
@@ -66,6 +71,26 @@ func decodeWrite(b []byte) string {
 		return "BAD"
 	}
 	raw := fr.GetMessage().(*message.MessageRaw)
+	if raw.ID == 2 && fr.GetComponentID() == 7 {
+		// a forwarded frame that carried a decoded SYSTEM_TIME (kind 'd'): it must still be a frame the next hop accepts (length and
+		// checksum right for ITS version, which is v1 for even item numbers), with its own header
+		dr := &frame.Reader{ByteReader: strings.NewReader(string(b)), DialectRW: getDialectRW("common")}
+		dr.Initialize() //nolint
+		df, derr := dr.Read()
+		if derr != nil {
+			return "BAD"
+		}
+		st, ok := df.GetMessage().(*common.MessageSystemTime)
+		if !ok {
+			return "BAD"
+		}
+		g, i := int(st.TimeUnixUsec>>32), int(uint32(st.TimeUnixUsec))
+		_, isV1 := df.(*frame.V1Frame)
+		if isV1 != (i%2 == 0) {
+			return "BAD"
+		}
+		return fmt.Sprintf("f%d.%d:%d:%d", g, i, fr.GetSequenceNumber(), fr.GetSystemID())
+	}
 	switch raw.ID {
 	case 2: // SYSTEM_TIME: originated message, tag in TimeUnixUsec
 		p := append(append([]byte(nil), raw.Payload...), make([]byte, 12)...)
@@ -91,6 +116,7 @@ func runFanScenario(sc fanScenario) fanResult {
 			conns[i].failAt = f
 			conns[i].failLen = sc.failLen
 			conns[i].failTimeout = sc.failTimeout
+			conns[i].failNet = sc.failNet
 		}
 		if p, ok := sc.pauseAt[i]; ok {
 			conns[i].pauseAt = p
@@ -124,6 +150,7 @@ func runFanScenario(sc fanScenario) fanResult {
 	}
 	res := fanResult{events: make([][]string, sc.k)}
 	var mu sync.Mutex
+	closingNode := false
 	chans := make([]*gomavlib.Channel, sc.k) // the FIRST channel of each endpoint
 	opened := 0
 	allOpen := make(chan struct{})
@@ -135,6 +162,9 @@ func runFanScenario(sc fanScenario) fanResult {
 			s := evString(e)
 			mu.Lock()
 			if s == "O" || strings.HasPrefix(s, "C(") {
+				if closingNode && strings.HasPrefix(s, "C(") {
+					s = "c" + s[1:] // reported only because the node itself was closed: not a report of the failure
+				}
 				res.events[i] = append(res.events[i], s)
 			}
 			if s == "O" && chans[i] == nil {
@@ -168,31 +198,7 @@ func runFanScenario(sc fanScenario) fanResult {
 						mu.Unlock()
 					}
 				}
-				if o.kind == 'm' {
-					var m message.Message = &common.MessageSystemTime{TimeUnixUsec: uint64(i) | uint64(g)<<32}
-					if o.bad {
-						m = &message.MessageRaw{ID: 99999, Payload: []byte{1}}
-					}
-					switch o.target {
-					case 'a':
-						n.WriteMessageAll(m) //nolint
-					case 't':
-						n.WriteMessageTo(target, m) //nolint
-					case 'x':
-						n.WriteMessageExcept(target, m) //nolint
-					}
-				} else {
-					fr := &frame.V2Frame{SequenceNumber: byte(i), SystemID: byte(g + 1), ComponentID: 7,
-						Message: &message.MessageRaw{ID: 1, Payload: []byte{byte(g), byte(i), byte(i >> 8)}}}
-					switch o.target {
-					case 'a':
-						n.WriteFrameAll(fr) //nolint
-					case 't':
-						n.WriteFrameTo(target, fr) //nolint
-					case 'x':
-						n.WriteFrameExcept(target, fr) //nolint
-					}
-				}
+				execFanOp(n, g, i, o, target)
 				if sc.pace >= 0 {
 					// keep the healthy channels' backlog small: the bound must only bite on the stalled channel
 					want := 0
@@ -276,6 +282,9 @@ func runFanScenario(sc fanScenario) fanResult {
 		}
 		time.Sleep(2 * time.Millisecond)
 	}
+	mu.Lock()
+	closingNode = true
+	mu.Unlock()
 	closed := make(chan struct{})
 	go func() { n.Close(); close(closed) }()
 	select {
@@ -322,7 +331,7 @@ func dash(s string) string {
 }
 
 func randFanOp(r *rngT, k int) fanOp {
-	o := fanOp{kind: "mf"[r.Intn(2)], target: "atx"[r.Intn(3)]}
+	o := fanOp{kind: "mfd"[r.Intn(3)], target: "atx"[r.Intn(3)]}
 	if o.target != 'a' {
 		o.ch = r.Intn(k)
 		if r.Intn(12) == 0 {
@@ -412,8 +421,15 @@ func genC13(r *rngT, n int, tier string) {
 			sc.failTimeout = r.bool()
 			badIdx = 1
 		}
-		if mode == "fail" {
-			sc.failTimeout = r.Intn(3) == 0
+		if mode == "fail" || mode == "pausefail" {
+			// the kind of error in turn: a plain error, a time-out, a hard network error
+			sc.failTimeout, sc.failNet = false, false
+			switch (s / 5) % 3 {
+			case 1:
+				sc.failTimeout = true
+			case 2:
+				sc.failNet = true
+			}
 		}
 		opMode := mode
 		if mode == "pausefail" {
